@@ -336,6 +336,10 @@ func coveringDesigns(prop string) []*dg.Design {
 			dg.F("in_opt", dg.Ref("Inner")),
 			dg.F("arr_in", dg.ArrayOf(dg.A(dg.Ref("Inner")))),
 			dg.F("map_in", dg.MapOf(dg.A(dg.Prim("String")), dg.A(dg.Ref("Inner")))),
+			// the same required-only type first met below a map of arrays / map of maps, then directly,
+			// then as array element (an answer remembered from one position must not reach another)
+			dg.F("maparr_ro", dg.MapOf(dg.A(dg.Prim("String")), dg.A(dg.ArrayOf(dg.A(dg.Ref("ReqOnly")))))),
+			dg.F("mapmap_ro", dg.MapOf(dg.A(dg.Prim("String")), dg.A(dg.MapOf(dg.A(dg.Prim("String")), dg.A(dg.Ref("ReqOnly")))))),
 			dg.F("ro", dg.Ref("ReqOnly")),
 			dg.F("arr_ro", dg.ArrayOf(dg.A(dg.Ref("ReqOnly")))),
 			dg.F("arr2_ro", dg.ArrayOf(dg.A(dg.ArrayOf(dg.A(dg.Ref("ReqOnly")))))),
@@ -417,6 +421,41 @@ func coveringDesigns(prop string) []*dg.Design {
 			dg.F("h_s", dg.Prim("String")).With(dg.Validation{Enum: []any{"a", "bc"}})))
 		s.Methods = append(s.Methods, &dg.Method{Name: "r_nested", Result: &rn, HTTP: &dg.HTTPMap{Routes: []dg.Route{{Verb: "GET", Path: "/result/nested"}},
 			Responses: []dg.Response{{Status: 200, Headers: []dg.MapEntry{{Attr: "h_i", Wire: "X-H-I"}, {Attr: "h_s", Wire: "X-H-S"}}}}}})
+		// results spread over body, response headers and response cookies: every mix of validated and
+		// plain headers / cookies, in both declaration orders (the client must check what it decodes
+		// from each location, whatever the other locations hold)
+		{
+			quota := func() *dg.Field { return dg.Req("quota", dg.Prim("Int")).With(dg.Validation{Min: fp(1), Max: fp(9)}) }
+			etag := func() *dg.Field { return dg.F("etag", dg.Prim("String")).With(dg.Validation{Pattern: "^[0-9]{2,4}$"}) }
+			tag := func() *dg.Field { return dg.F("tag", dg.Prim("String")) }
+			sess := func() *dg.Field { return dg.F("sess", dg.Prim("String")) }
+			tok := func() *dg.Field {
+				if prop == "C14" {
+					// a validated response cookie is the recorded finding set-cookie-header-carries-cookie-schema
+					return dg.F("tok", dg.Prim("String"))
+				}
+				return dg.F("tok", dg.Prim("String")).With(dg.Validation{MaxLen: ip(3)})
+			}
+			name := func() *dg.Field { return dg.Req("name", dg.Prim("String")).With(dg.Validation{MaxLen: ip(4)}) }
+			h := func(a, w string) dg.MapEntry { return dg.MapEntry{Attr: a, Wire: w} }
+			mixes := []struct {
+				n       string
+				fields  []*dg.Field
+				headers []dg.MapEntry
+				cookies []dg.MapEntry
+			}{
+				{"r_hc_a", []*dg.Field{name(), quota(), sess()}, []dg.MapEntry{h("quota", "X-Quota")}, []dg.MapEntry{h("sess", "sess_r")}},
+				{"r_hc_b", []*dg.Field{name(), tag(), tok()}, []dg.MapEntry{h("tag", "X-Tag")}, []dg.MapEntry{h("tok", "tok_r")}},
+				{"r_hc_c", []*dg.Field{name(), quota(), tag(), tok(), sess()}, []dg.MapEntry{h("quota", "X-Quota"), h("tag", "X-Tag")}, []dg.MapEntry{h("tok", "tok_r"), h("sess", "sess_r")}},
+				{"r_hc_d", []*dg.Field{name(), tag(), etag(), sess(), tok()}, []dg.MapEntry{h("tag", "X-Tag"), h("etag", "X-Etag")}, []dg.MapEntry{h("sess", "sess_r"), h("tok", "tok_r")}},
+				{"r_hc_e", []*dg.Field{name(), tag(), sess()}, []dg.MapEntry{h("tag", "X-Tag")}, []dg.MapEntry{h("sess", "sess_r")}},
+			}
+			for _, mx := range mixes {
+				r := dg.A(dg.Obj(mx.fields...))
+				s.Methods = append(s.Methods, &dg.Method{Name: mx.n, Result: &r, HTTP: &dg.HTTPMap{Routes: []dg.Route{{Verb: "GET", Path: "/result/" + mx.n}},
+					Responses: []dg.Response{{Status: 200, Headers: mx.headers, Cookies: mx.cookies}}}})
+			}
+		}
 		ru := dg.A(dg.Ref("RInner"))
 		s.Methods = append(s.Methods, &dg.Method{Name: "r_user", Result: &ru, HTTP: &dg.HTTPMap{Routes: []dg.Route{{Verb: "GET", Path: "/result/user"}}}})
 		ra := dg.Attr{T: dg.ArrayOf(dg.Attr{T: dg.Prim("String"), V: &dg.Validation{MaxLen: ip(2)}}), V: &dg.Validation{MinLen: ip(1)}}
@@ -432,14 +471,6 @@ func witnessDesigns() []*dg.Design {
 	d := &dg.Design{Name: "wit_findings", Features: []string{"witness"}}
 	d.Types = []*dg.UserType{{Name: "ReqOnly", Base: dg.Obj(dg.Req("a", dg.Prim("String")), dg.Req("b", dg.Prim("Int")), dg.F("c", dg.Prim("Boolean")))}}
 	s := &dg.Service{Name: "wit"}
-	// user types whose only validations are required primitive attributes, below maps: directly as map
-	// value and in an array of maps (validated since the repair of recurseValidationCode), as element of
-	// an array / value of a map that is itself a map value (still not validated: recorded finding)
-	mr := dg.A(dg.Obj(dg.F("map_ro", dg.MapOf(dg.A(dg.Prim("String")), dg.A(dg.Ref("ReqOnly")))), dg.F("arr_ro", dg.ArrayOf(dg.A(dg.Ref("ReqOnly")))),
-		dg.F("maparr_ro", dg.MapOf(dg.A(dg.Prim("String")), dg.A(dg.ArrayOf(dg.A(dg.Ref("ReqOnly")))))),
-		dg.F("mapmap_ro", dg.MapOf(dg.A(dg.Prim("String")), dg.A(dg.MapOf(dg.A(dg.Prim("String")), dg.A(dg.Ref("ReqOnly")))))),
-		dg.F("arrmap_ro", dg.ArrayOf(dg.A(dg.MapOf(dg.A(dg.Prim("String")), dg.A(dg.Ref("ReqOnly"))))))))
-	s.Methods = append(s.Methods, method("w_mapro", "POST", "/wit/mapro", &mr, nil))
 	// absent optional array / map carrying MinLength > 0
 	p := dg.A(dg.Obj(
 		dg.Req("id", dg.Prim("String")),
